@@ -1,6 +1,6 @@
 """C07 — consumer offsets are exact, isolated per consumer/partition and durable (structural clauses)."""
 from lib import *
-from mir import render, walk, short
+from mir import render, walk, short, canon
 from engine import AnchorLost
 
 TECHNIQUE = 'variant↔field agreement over enum-arm regions, access tables, interprocedural guard dominance, must-pass-through pairing, provenance (A1, A2, A3, A5, A9)'
@@ -323,3 +323,44 @@ def run(ctx, rep):
             ok = any(render(e).endswith('partition_id') and (vals == [0] or (vals == [] and lit['else'] and lit['arms'] == [1])) for e, vals, lit in discr_literals_at(rb, cs[0].bb))
             rep.ob('R07.i', T + '::resolve_consumer_with_partition_id', short(callee) + ' only without an explicit partition', ok, cs[0].where(),
                    None if ok else 'the member\'s partition is consulted even when the request names a partition')
+
+    # ------------------------------------------------------------ R07.j the offset maps are keyed by the consumer id / the group id, never by the member id
+    rep.rule('R07.j', 'every keyed access to the two offset maps of a partition uses the key of its kind: consumer_offsets by the consumer id (`Consumer(id, _)`), consumer_group_offsets by the *group* id (`ConsumerGroup(group_id, member_id)`: the first component) — a group offset filed under the member id is invisible to the other members and collides with another group', floor=5, analysis='A9 call-argument forms')
+    for d_ in sorted(ctx.facts.body_defs()):
+        if not d_.startswith('server::') or '__CALLSITE' in d_:
+            continue
+        b_ = ctx.body(d_)
+        for c_ in b_.calls:
+            if not (is_user_call(c_) and c_.name.startswith('dashmap::DashMap::') and len(c_.args) > 1):
+                continue
+            r_ = canon(b_.pexpr_operand(c_.args[0], 0, frozenset(), (c_.bb, 't')), 0, 1)
+            which = 'group' if r_.endswith('.consumer_group_offsets') else ('consumer' if r_.endswith('.consumer_offsets') else None)
+            if which is None:
+                continue
+            k_ = canon(b_.pexpr_operand(c_.args[1], 0, frozenset(), (c_.bb, 't')), 0, 2)
+            if which == 'group':
+                ok_ = bool(re.search(r'as ConsumerGroup\)\.0\b', k_) or re.search(r'\bgroup_id\b', k_)) and not re.search(r'as ConsumerGroup\)\.1\b|member_id', k_)
+            else:
+                ok_ = bool(re.search(r'as Consumer\)\.0\b', k_) or re.search(r'\bconsumer_id\b', k_)) and not re.search(r'as ConsumerGroup\)', k_)
+            rep.ob('R07.j', ctx.user_fn_of(d_), '%s(%s)[%s]' % (c_.name.split('::')[-1], r_.split('.')[-1], k_[:60]), ok_, c_.where(), None if ok_ else
+                   'the %s offsets are accessed with the key `%s`, which is not the %s id' % (which, k_[:80], 'group' if which == 'group' else 'consumer'))
+
+    # ------------------------------------------------------------ R07.k an automatic commit stores what the poll returned, whatever was stored before
+    rep.rule('R07.k', 'auto-commit: Topic::store_consumer_offset_internal has no successful return that does not pass the success edge of Partition::store_consumer_offset (a poll by offset / first / timestamp may legitimately move the stored offset backwards; skipping the store leaves the consumer where it was)', floor=1, analysis='A2')
+    SI = 'server::streaming::topics::topic::Topic::store_consumer_offset_internal'
+    if not ctx.has(SI):
+        rep.anchor_lost('R07.k', SI)
+    else:
+        sb_ = ctx.fn_body(SI)
+        st_ = [c for c in sb_.calls if c.name.endswith('Partition::store_consumer_offset') and is_user_call(c)]
+        if not st_:
+            rep.ob('R07.k', SI, 'stores', False, None, 'the auto-commit path no longer calls Partition::store_consumer_offset')
+        else:
+            oks_ = strict_ok_exit_blocks(sb_) | {b for b, k, _ in sb_.return_sites() if k in ('value', 'tail')}
+            # a successful exit reachable without the store: with the call block removed, some Ok / tail return is still reachable, and it is not the tail return of the store itself
+            reach_ = sb_.reachable(0, avoid_blocks={st_[0].bb})
+            bad_ = sorted(x for x in (oks_ & reach_))
+            ok_ = not bad_
+            rep.ob('R07.k', SI, 'every successful return passes the store', ok_, st_[0].where(), None if ok_ else
+                   'a successful return (block %s) is reachable without storing the offset: the automatic commit is skipped under some condition' % bad_[:2])
+
